@@ -29,7 +29,7 @@ Definition c04_spec_keys := spec_keys.
 Definition c04_dom (cf : cfg) (c : cmd) : bool := cfg_dom cf && cmd_dom c.
 (* membership in each recorded class, in the order of known_findings/C04.json *)
 Definition c04_classes (cf : cfg) (c : cmd) : list bool :=
-  [kf_bare_window c; kf_short_request c; kf_macro_case cf c; kf_underscore_name cf c].
+  [kf_bare_window c; kf_macro_case cf c; kf_underscore_name cf c].
 Definition c04_tauri_camel := tauri_camel.
 Definition c04_tauri_snake := tauri_snake.
 
